@@ -1,6 +1,8 @@
 // C03: linear interpolation over the probe backend (REAL mode identity; BITS mode cell choice and lattice exactness)
 #include "vf_probe.hpp"
+#include <covfie/core/backend/primitive/array.hpp>
 #include <covfie/core/backend/transformer/linear.hpp>
+#include <covfie/core/backend/transformer/strided.hpp>
 #include <covfie/core/field.hpp>
 #include <covfie/core/field_view.hpp>
 using namespace covfie;
@@ -173,6 +175,53 @@ template <size_t N, size_t M, class Tc, class Ts, size_t I0, size_t I1, size_t I
         vf_assert(r[j] == want || (want != want), 1);
     }
     vf_observe_u64(corner);
+}
+
+// 4. the same identity over real array storage (ties the probe abstraction to linear<strided<array>>):
+//    EXT^N cells of symbolic real contents, symbolic cell index inside the grid, real fractional parts
+template <size_t N, size_t M, class V, size_t EXT> static float refa(const V & v, const size_t * i, const float * a, size_t k, size_t * idx, size_t comp)
+{
+    if (k == N) {
+        typename V::parent_t::contravariant_input_t::vector_t c;
+        for (size_t q = 0; q < N; q++) c[q] = idx[q];
+        return v.at(c)[comp];
+    }
+    idx[k] = i[k];
+    float lo = refa<N, M, V, EXT>(v, i, a, k + 1, idx, comp);
+    idx[k] = i[k] + 1;
+    float hi = refa<N, M, V, EXT>(v, i, a, k + 1, idx, comp);
+    return (1.0f - a[k]) * lo + a[k] * hi;
+}
+
+template <size_t N, size_t M, size_t EXT> static void lin_array_h()
+{
+    using S = backend::strided<vector::vector_d<size_t, N>, backend::array<vector::vector_d<float, M>>>;
+    using L = backend::linear<S>;
+    typename S::configuration_t sz;
+    size_t total = 1;
+    for (size_t k = 0; k < N; k++) { sz[k] = EXT; total *= EXT; }
+    field<L> f(make_parameter_pack(std::monostate{}, typename S::configuration_t(sz)));
+    typename S::non_owning_data_t sv(f.backend().get_backend());
+    for (size_t c = 0; c < total; c++) {
+        typename S::coordinate_t p;
+        size_t r = c;
+        for (size_t k = N; k-- > 0;) { p[k] = r % EXT; r /= EXT; }
+        for (size_t j = 0; j < M; j++) sv.at(p)[j] = vf_nondet_f32();
+    }
+    typename field<L>::view_t v(f);
+    size_t i[N];
+    float a[N];
+    typename field<L>::coordinate_t x;
+    for (size_t k = 0; k < N; k++) {
+        i[k] = vf_nondet_size();
+        vf_assume(i[k] < EXT - 1);           // 0 <= x_k < extent_k - 1
+        a[k] = vf_nondet_unit_f32();
+        x[k] = vf_coord_f32(i[k], a[k]);
+    }
+    auto r = v.at(x);
+    size_t idx[N];
+    for (size_t j = 0; j < M; j++) vf_assert(vf_eq_real_f32(r[j], refa<N, M, decltype(sv), EXT>(sv, i, a, 0, idx, j), int(N + 1 + (size_t(1) << N))), 1);
+    vf_observe_u64(total);
 }
 
 extern "C" void vf_main()
